@@ -119,6 +119,31 @@ def conclude(prop, tier, res, wall):
     return 1 if nviol else 0
 
 
+def all_families(plan, own=()):
+    """Monitors are evaluated on every trace, and a change that breaks property P often needs the world of another
+    family to manifest (a fault, a stale cache, a finalize hook, a rollout ...): every sync-level check therefore
+    also replays a seed-chosen slice of every other family."""
+    import fam_own, fam_conv, fam_fin, fam_faults, fam_dec, fam_status, fam_roll, fam_rollfin
+    extra = {
+        "quick": [("MC_Own", "Beh_Own_q.cfg", fam_own.convert, 250), ("MC_Conv", "Beh_Conv_t.cfg", fam_conv.convert, 300),
+                  ("MC_Fin", "Beh_Fin_t.cfg", fam_fin.convert, 200), ("MC_Faults", "Beh_Faults_q.cfg", fam_faults.convert, 0),
+                  ("MC_Dec", "Beh_Dec_q.cfg", fam_dec.convert, 150), ("MC_Status", "Beh_Status_q.cfg", fam_status.convert, 100),
+                  ("MC_Rolling", "Beh_Rolling_q.cfg", fam_roll.convert, 40), ("RollFin", "Beh_RollFin.cfg", fam_rollfin.convert, 0)],
+        "thorough": [("MC_Own", "Beh_Own_t.cfg", fam_own.convert, 3000), ("MC_Conv", "Beh_Conv_t.cfg", fam_conv.convert, 3000),
+                     ("MC_Fin", "Beh_Fin_t6.cfg", fam_fin.convert, 2000), ("MC_Faults", "Beh_Faults_q.cfg", fam_faults.convert, 0),
+                     ("MC_Dec", "Beh_Dec_t.cfg", fam_dec.convert, 2000), ("MC_Status", "Beh_Status_t.cfg", fam_status.convert, 1000),
+                     ("MC_Rolling", "Beh_Rolling_q.cfg", fam_roll.convert, 300), ("RollFin", "Beh_RollFin.cfg", fam_rollfin.convert, 0)],
+    }
+    out = dict(plan)
+    out["pkgs"] = {"composite": COMPOSITE, "decorator": DECORATOR}
+    out.pop("pkg", None)
+    out["beh"] = {}
+    for tier in ("quick", "thorough"):
+        have = {(m, c) for m, c, _, _ in plan["beh"][tier]}
+        out["beh"][tier] = list(plan["beh"][tier]) + [e for e in extra[tier] if (e[0], e[1]) not in have]
+    return out
+
+
 def sync_level(scr, tier, prop, prefix, plan, replay_file=None):
     """plan: dict(mc=[(module,cfg,expect_violation)], beh=[(module,cfg,converter,quota)],
     pkg=..., core=predicate(scenario) -> bool for scenarios always kept)."""
@@ -175,7 +200,7 @@ def sync_level(scr, tier, prop, prefix, plan, replay_file=None):
             others[h["name"]] = others.get(h["name"], 0) + 1
     total, nt = nontrivial_scenarios(traces)
     evs = list(events_of(traces))
-    ndrift, drift_ex = plan["drift"](scenarios, evs) if plan.get("drift") else (0, [])
+    ndrift, drift_ex = plan["drift"]([s for s in scenarios if s.get("fam") == plan.get("drift_fam", s.get("fam"))], evs) if plan.get("drift") else (0, [])
     by_id = {s["id"]: s for s in scenarios}
     all_events = evs
 
